@@ -141,6 +141,10 @@ func (x *exec) toTerm(v Val) *smt.Term {
 		return locTerm(r)
 	case *FuncVal:
 		unsupp("function value used as data")
+	case *ownedRef:
+		unsupp("pointer into an owned structure used as a plain value")
+	case *ownedFieldLoc:
+		unsupp("address of a field of an owned node escapes")
 	}
 	panic(fmt.Sprintf("govc: value %T has no term", v))
 }
@@ -233,9 +237,21 @@ func (x *exec) instr(st *pstate, in ssa.Instruction) bool {
 		tup := x.val(st, in.Tuple).(Tuple)
 		x.set(st, in, tup[in.Index])
 	case *ssa.FieldAddr:
+		st0 := in.X.Type().Underlying().(*types.Pointer).Elem().Underlying().(*types.Struct)
+		switch b := x.val(st, in.X).(type) {
+		case *ownedRef:
+			x.materialise(st, b, in)
+			x.set(st, in, &ownedFieldLoc{r: b, fi: in.Field, t: st0.Field(in.Field).Type()})
+			return false
+		case *ownedFieldLoc:
+			n := *b
+			n.path = append(append([]pathElem{}, b.path...), pathElem{Field: in.Field, T: st0.Field(in.Field).Type()})
+			n.t = st0.Field(in.Field).Type()
+			x.set(st, in, &n)
+			return false
+		}
 		l := x.val(st, in.X).(*Loc)
 		x.nilCheck(st, l, in)
-		st0 := in.X.Type().Underlying().(*types.Pointer).Elem().Underlying().(*types.Struct)
 		x.set(st, in, x.env.Field(l, in.Field, st0.Field(in.Field).Type()))
 	case *ssa.Field:
 		v := x.term(st, in.X)
@@ -251,11 +267,25 @@ func (x *exec) instr(st *pstate, in ssa.Instruction) bool {
 	case *ssa.Slice:
 		x.set(st, in, x.sliceOp(st, in))
 	case *ssa.Store:
+		if ol, ok := x.val(st, in.Addr).(*ownedFieldLoc); ok {
+			x.ownedFieldStore(st, ol, x.val(st, in.Val), in)
+			return false
+		}
 		l := x.val(st, in.Addr).(*Loc)
 		x.nilCheck(st, l, in)
 		x.frameCheck(st, l, in)
 		x.monitorAccess(st, l, in, true)
-		x.store(st, l, x.term(st, in.Val))
+		v := x.val(st, in.Val)
+		if r, ok := v.(*ownedRef); ok {
+			// the heap cell becomes the owner of the structure
+			t := x.ownedTerm(st, r, in.Pos())
+			x.markMoved(st, r, true, "the structure was stored into the heap")
+			x.store(st, l, t)
+			delete(st.heapOwned, l.String())
+			st.epoch++
+			return false
+		}
+		x.store(st, l, x.toTerm(v))
 	case *ssa.MakeSlice:
 		x.set(st, in, x.makeSlice(st, in))
 	case *ssa.Call:
@@ -414,7 +444,13 @@ func (x *exec) binop(st *pstate, in *ssa.BinOp) Val {
 		va, vb := x.val(st, in.X), x.val(st, in.Y)
 		la, aok := va.(*Loc)
 		lb, bok := vb.(*Loc)
-		if aok && bok {
+		if ra, isOwned := va.(*ownedRef); isOwned {
+			rb, ok2 := vb.(*ownedRef)
+			if !ok2 {
+				unsupp("comparison of an owned pointer with %T", vb)
+			}
+			eq = x.ownedEq(st, ra, rb, in)
+		} else if aok && bok {
 			ev := x.evalAt(st, nil)
 			eq = ev.ptrEq(SV{T: tx, Loc: la}, SV{T: tx, Loc: lb})
 		} else {
@@ -453,6 +489,9 @@ func (x *exec) strConcat(st *pstate, a, b *smt.Term) *smt.Term {
 func (x *exec) unop(st *pstate, in *ssa.UnOp) Val {
 	switch in.Op {
 	case token.MUL:
+		if ol, isOwned := x.val(st, in.X).(*ownedFieldLoc); isOwned {
+			return x.ownedFieldLoad(st, ol, in)
+		}
 		l, ok := x.val(st, in.X).(*Loc)
 		if !ok {
 			unsupp("load through non-location %T", x.val(st, in.X))
@@ -469,6 +508,19 @@ func (x *exec) unop(st *pstate, in *ssa.UnOp) Val {
 		}
 		v := x.load(st, l)
 		t := in.Type()
+		if x.p.T.OwnedOf(t) != nil {
+			// an owned structure kept in a heap cell: repeated loads of the cell give the same handle
+			key := l.String()
+			if r, ok := st.heapOwned[key]; ok {
+				return r
+			}
+			r := x.newOwned(v, t)
+			if st.heapOwned == nil {
+				st.heapOwned = map[string]*ownedRef{}
+			}
+			st.heapOwned[key] = r
+			return r
+		}
 		x.assumeLoaded(st, v, t)
 		return x.wrap(v, t)
 	case token.NOT:
@@ -788,6 +840,13 @@ func (x *exec) doReturn(st *pstate, in *ssa.Return) {
 		if res.Len() == 1 {
 			sc.vars["result"] = sv
 		}
+	}
+	if len(x.ownedParams) > 0 || len(st.owned) > 0 || len(st.heapOwned) > 0 {
+		var rvals []Val
+		for i := 0; i < res.Len(); i++ {
+			rvals = append(rvals, x.val(st, in.Results[i]))
+		}
+		x.ownedExit(st, sc, rvals, in)
 	}
 	x.monitorExit(st, in)
 	if !mayAllocate(x.c) && !x.c.C.Trusted {
